@@ -7,8 +7,10 @@
      monitor : the property itself on the implementation's observation - the daemon is
                alive; an error frame is the last frame of its connection; the frame a
                deliberately malformed command was built to provoke is the one received;
-               the bystander's registrations are what they were; nothing of the closed
-               hostile connection remains; an HTTP request answered 4xx changed nothing
+               the bystander's registrations are what they were; a hostile connection that
+               has come and gone leaves every producer entry of the registry and the /lookup
+               producers unchanged; a well-behaved command of one connection changes nothing
+               of the others; an HTTP request answered 4xx changed nothing
    No proofs here. *)
 From Coq Require Import List NArith ZArith Bool String.
 From NSQV Require Import model.Judge model.Names model.Lookupd model.LookupProto judge.J14.
@@ -123,6 +125,27 @@ Definition view_same (a b : view) : bool :=
 
 Definition empty_view : view := mkView None [] [] [].
 
+(* everything in the registry that is NOT connection p's, and the producers /lookup lists *)
+Definition others (p : peer) (v : view) : list (reg * peer * bool) :=
+  filter (fun e => negb (N.eqb (snd (fst e)) p)) (v_debug v).
+Definition producers (v : view) : list peer :=
+  match v_lookup v with Some (_, ps) => ps | None => [] end.
+Definition producers_but (p : peer) (v : view) : list peer :=
+  filter (fun q => negb (N.eqb q p)) (producers v).
+
+(* the connection a well-behaved command travels on; whether the command ends it *)
+Definition op_peer (o : op) : option peer :=
+  match o with
+  | Identify p _ | Register p _ _ | Unregister p _ _ | Ping p | Disconnect p => Some p
+  | _ => None
+  end.
+Definition op_closes (o : op) (r : out) : bool :=
+  match o, r with
+  | Disconnect _, _ => true
+  | _, OResp (RErr _) => true          (* every error of this protocol is fatal *)
+  | _, _ => false
+  end.
+
 Fixpoint mon_acts (by_ : peer) (prev : view) (l : list act) : bool :=
   match l with
   | [] => true
@@ -132,7 +155,12 @@ Fixpoint mon_acts (by_ : peer) (prev : view) (l : list act) : bool :=
       (match a_action a, a_result a with
        | AConn p _ _, RConn frames =>
            frames_ok frames && last_is (a_expect a) frames
-           && mseq debug_eqb (mine by_ v) (mine by_ prev)            (* isolation *)
+           (* isolation: a connection that has come and gone leaves EVERY producer entry of the
+              registry (whoever it belongs to, tombstone flags included) and the producers
+              /lookup lists as they were - whatever identity its bytes claimed *)
+           && mseq debug_eqb (v_debug v) (v_debug prev)
+           && mseq N.eqb (producers v) (producers prev)
+           && mseq debug_eqb (mine by_ v) (mine by_ prev)
            && Bool.eqb (listed by_ v) (listed by_ prev)
            && forallb (fun c => existsb (bytes_eqb c) (v_chans v)) (my_channels by_ prev)  (* its channels are still listed *)
            && (negb (listed by_ prev)
@@ -145,7 +173,16 @@ Fixpoint mon_acts (by_ : peer) (prev : view) (l : list act) : bool :=
            negb (N.eqb n 0)
            && match a_expect_status a with Some e => N.eqb n e | None => true end
            && (if (400 <=? n)%N && (n <? 500)%N then view_same v prev else true)
-       | AOp _, ROp _ => true
+       | AOp o, ROp out =>
+           (* a well-behaved command on connection q (the bystander's or the visitor's, which
+              stays open): nothing that is not q's changes; a connection that ended left nothing *)
+           match op_peer o with
+           | Some q =>
+               mseq debug_eqb (others q v) (others q prev)
+               && mseq N.eqb (producers_but q v) (producers_but q prev)
+               && (negb (op_closes o out) || match mine q v with [] => true | _ => false end)
+           | None => true
+           end
        | _, _ => false
        end)
       && mon_acts by_ v r
